@@ -12,6 +12,7 @@ THEOREMS = [
   ("C15_array_copy_shallow", "copy_shallow_spec", ""),
   ("C15_array_copy_deep", "copy_deep_spec", ""),
   ("C15_array_filter", "Array:filter_spec", ""),
+  ("C15_stack_filter", "stack_filter_spec", "CC_Stack filter: a stack of its own (fresh header and array blocks from the source's allocator family, the source's capacity) holding exactly the kept elements in order; empty source rejected; a refused allocation leaves nothing behind"),
   ("C15_deque_copy", "Deque:copy_spec", "CC_Deque copy_shallow / copy_deep from every layout (linearised, order preserved)"),
   ("C15_deque_filter", "Deque:filter_spec", ""),
   ("C15_hashtable_keys_values", "ht_collect_content", "CC_HashTable get_keys / get_values: exactly the bindings, table unchanged"),
